@@ -362,7 +362,9 @@ def gen(ch, tier):
         e = ["*", e, ["g"]]
     # finer constants for the print check
     if ch.flag(0.5):
-        e = ["+", e, ch.choice(["0.123456", "3.14159265", "-0.000049", "0.99995", "12.5", "1e-3", "2.5"])]
+        e = ["+", e, ch.choice(["0.123456", "3.14159265", "-0.000049", "0.99995", "12.5", "1e-3", "2.5",
+                                # whole and fractional constants with more than six significant digits
+                                "1234567", "2147483647", "86400123", "1000001", "-9876543", "1234567.125", "123456.7891"])]
     return {"kind": "print", "expr": e, "digits": ch.choice([0, 1, 2, 3, 4, 5, 6, None]), "vals": gen_vals(ch)}
 
 
